@@ -140,6 +140,8 @@ def run_heap_family(prop, tier, seed, configs, scratch, assumptions, level_note)
             break
     if not violations and prop in TRACE_PROPS and not os.environ.get("VERIF_MEASURE"):
         run_trace_validation(prop, tier, seed, scratch, cov, violations, TRACE_PROPS[prop])
+    if not violations and prop == "C09" and not os.environ.get("VERIF_MEASURE"):
+        run_slice_model(prop, tier, scratch, cov)
     return cov, violations
 
 
@@ -161,6 +163,10 @@ def run_trace_validation(prop, tier, seed, scratch, cov, violations, stages=(("s
         else:
             nkeys = 80
             args = ["-programs", "6" if q else "60", "-steps", "60" if q else "120", "-bigprograms", "0", "-bigobj"]
+        spine = None
+        if kind == "std" and dv == 0 and prop in SLICE_PROPS:
+            spine = scratch.path("spine-%s.ndjson" % tag)
+            args = args + ["-spine", spine]
         rc, so, se, wall = run_vh(vh, ["drive", "-trace", trace, "-seed", str(seed), "-nkeys", str(nkeys), "-derived", str(dv), "-out", summ] + args, 1800)
         s = json.load(open(summ))
         mod = "---- MODULE MC ----\nEXTENDS HeapTrace\nmcLits == <<>>\n====\n"
@@ -209,6 +215,70 @@ def run_trace_validation(prop, tier, seed, scratch, cov, violations, stages=(("s
             pass
         if violations:
             return
+        if spine:
+            run_slice_trace(prop, tier, scratch, cov, spine)
+
+
+SLICE_PROPS = ("C05", "C09")
+
+
+def run_slice_trace(prop, tier, scratch, cov, spine):
+    """Implementation-shaped stage: the slice headers (len, cap, backing array) of every built-in list, recorded through the
+    VerifSpine hook after every call of the random programs, must follow spec/SliceTrace.tla (append in place or move to a
+    fresh array, make+copy for derivations, no two lists on one array).  A rejection is spec drift, never a violation."""
+    mod = "---- MODULE MC ----\nEXTENDS SliceTrace\n====\n"
+    cfg = 'CONSTANTS\n TraceFile = "%s"\nSPECIFICATION TraceSpec\nINVARIANT TraceInv\nCONSTRAINT Mark\nPOSTCONDITION TraceAccepted\nCHECK_DEADLOCK FALSE\n' % spine
+    nlines = sum(1 for _ in open(spine))
+    try:
+        res = run_tlc(scratch, "%s-slice-trace" % prop, mod, cfg, ["SliceHdr.tla", "SliceTrace.tla"], 1200, workers=1, heap="4g")
+    except Inconclusive as e:
+        cov["spec_drift"].append("SliceTrace.tla: TLC did not finish (%s); no verdict taken from it" % str(e)[:200])
+        return
+    entry = dict(name="%s-slice-trace" % prop, spec="SliceTrace.tla", events=nlines, tlc_wall_s=round(res["wall_s"], 1), accepted=bool(res["ok"]))
+    cov.setdefault("trace_validation", []).append(entry)
+    if res["ok"]:
+        log("[slice] %s: %d recorded header events accepted by SliceTrace.tla in %.1fs" % (prop, nlines, res["wall_s"]))
+    else:
+        first = res.get("states", 0)
+        lines = open(spine).read().split("\n")
+        bad = lines[first - 1] if 0 < first <= len(lines) else ""
+        why = "invariant Ownership/WellFormed" if "TraceInv" in res["tail"] else "no header rule allows it"
+        cov["spec_drift"].append("SliceTrace.tla rejects recorded event %d (%s): %s" % (first, why, bad[:300]))
+        log("[slice] %s: recorded headers REJECTED at event %d (%s) — spec drift, no verdict: %s" % (prop, first, why, bad[:200]))
+    try:
+        os.remove(spine)
+    except OSError:
+        pass
+
+
+def run_slice_model(prop, tier, scratch, cov):
+    """Design level: spec/SliceMem.tla (headers + array contents) refines the sequence semantics and keeps Frame/Ownership;
+    the three seeded header bugs (defect D5 among them) must be found by TLC."""
+    bounds = [(2, 3)] if tier == "quick" else [(2, 3), (3, 2), (2, 4)]
+    mod = "---- MODULE MC ----\nEXTENDS SliceMem\n====\n"
+    for bug in ("none", "concat-append", "sublist-reslice", "clear-reslice"):
+        for (nl, mc) in (bounds if bug == "none" else [(2, 3)]):
+            cfg = ('CONSTANTS\n MaxLists = %d\n MaxCap = %d\n Vals = {1, 2}\n Bug = "%s"\nSPECIFICATION Spec\nINVARIANTS TypeOK Refines%s\nPROPERTY Frame\nCHECK_DEADLOCK FALSE\n'
+                   % (nl, mc, bug, " Ownership" if bug in ("none", "clear-reslice") else ""))  # negatives: let TLC reach the user-visible Frame violation
+            try:
+                res = run_tlc(scratch, "%s-slicemem-%s-%d-%d" % (prop, bug, nl, mc), mod, cfg, ["SliceHdr.tla", "SliceMem.tla"], 1500)
+            except Inconclusive as e:
+                cov["spec_drift"].append("SliceMem.tla (%s): %s" % (bug, str(e)[:200]))
+                continue
+            # clear-reslice alone is harmless (nobody else owns the array): it must pass; the other two must be caught
+            expect_ok = bug in ("none", "clear-reslice")
+            if not expect_ok and not res["ok"] and "Frame is violated" not in res["tail"]:
+                cov["spec_drift"].append("SliceMem.tla with Bug=%s: TLC stopped for another reason than Frame: %s" % (bug, res["tail"][-300:].replace("\n", " ")))
+            entry = dict(name="slicemem-%s-l%d-c%d" % (bug, nl, mc), tlc_states=res.get("states"), tlc_transitions=res.get("transitions"),
+                         tlc_wall_s=round(res["wall_s"], 1), expected="holds" if expect_ok else "violated", as_expected=bool(res["ok"]) == expect_ok)
+            cov.setdefault("design_models", []).append(entry)
+            if expect_ok:
+                cov["states"] += res.get("states", 0)
+                cov["transitions"] += res.get("transitions", 0)
+            if not entry["as_expected"]:
+                cov["spec_drift"].append("SliceMem.tla with Bug=%s: expected %s, TLC says otherwise: %s" % (bug, entry["expected"], res["tail"][-300:].replace("\n", " ")))
+            log("[slicemem] Bug=%s lists=%d cap=%d: %s states, %s (%s)" % (bug, nl, mc, res.get("states"), "no error" if res["ok"] else "violation found",
+                                                                        "as expected" if entry["as_expected"] else "UNEXPECTED"))
 
 
 TRACE_PROPS = {"C05": (("std", 0),), "C06": (("std", 0), ("bigobj", 0)), "C07": (("scen", 0),), "C08": (("std", 0), ("scen", 0)), "C09": (("std", 0),),
